@@ -318,8 +318,10 @@ def run(prop, tier, logdir):
         if r["verdict"] == "candidate":
             r = replay(q, r, prop, logdir)
         elif r["verdict"] == "not-translatable":
-            # DESIGN §1: fall back to E1 alone; recorded, not a failure of the property
-            r["verdict"] = "skipped"
+            # every query translates on the pinned tree; if a source change puts the function outside
+            # the translator the honest answer is "inconclusive" (exit 2), never a silent pass
+            r["verdict"] = "inconclusive"
+            r["why"] = "function no longer translatable: " + str(r.get("why"))
         results.append(r)
     return results
 
